@@ -55,6 +55,12 @@ def routing(ctx, sample, shape=0):
     srv_ctx = {}
     for n_, sid in enumerate(sessions):
         srv_ctx[sid] = CTX if (CTX is None or n_ % 5 != 4) else (None if n_ % 2 else b"application context v1")
+    if CTX is not None:
+        # sessions that are right in everything - user, record, identifier, this client's own request - except the context
+        for tag, cx in (("#no-context", None), ("#empty-context", b""), ("#other-context", b"application context v1")):
+            records["u1" + tag] = records["u1"]
+            sessions.append(("c1", "u1" + tag, C1))
+            srv_ctx[("c1", "u1" + tag, C1)] = cx
     for (c, rec, cred) in sessions:
         r = ctx.call("srv_login_start", ctx.tape(L.Nh + 64 + L.Nsk + 16), setup, records[rec][0], clients[c][1], cred,
                      srv_ctx[(c, rec, cred)], idu_of(user_of_cred[cred]), IDS)
